@@ -986,12 +986,10 @@ def time_layer(run, rng, tier, model):
                     # the reader answers the error value: the comparison falls back to "invalid sorts first" / the stored octets
                     run.known_finding("C06-gt-fraction-of-hour-minute" if not (a["t"] == -1 or b["t"] == -1) else "C17-time-minus-one", "TZ=%s %s" % (tz_string(tz), l))
                     continue
-                if tn == "G" and o.strip() == str(tree_compare(a, b)) and c_fraction(a["text"])[1] != c_fraction(b["text"])[1]:
-                    run.known_finding("C06-gt-compare-fraction-digits", "TZ=%s %s" % (tz_string(tz), l))
-                    continue
+                # (C06-gt-compare-fraction-digits is fixed, C06-fix-9: unequal digit counts are no excuse any more)
                 run.violation("oracle:compare(%s)" % ("equal" if want == 0 else "order"),
                               {"module": m["text"], "type": tn, "TZ": tz_string(tz), "command_line": l, "c": o, "expected": str(want), "a": {k: a[k] for k in ("t", "frac", "text", "form")},
-                               "b": {k: b[k] for k in ("t", "frac", "text", "form")}, "expected_of_unchanged_tree": str(tree_compare(a, b)),
+                               "b": {k: b[k] for k in ("t", "frac", "text", "form")}, "tree_arithmetic_replayed": str(tree_compare(a, b)),
                                "what": "compare_struct of two time values does not follow (instant, fraction): equal values in different spellings must compare equal, different values in their order"})
                 continue
             tn, v, insyn = me
@@ -1018,7 +1016,7 @@ def time_layer(run, rng, tier, model):
                     continue
                 tree = enc(s, tn, v, "tree")
                 if got.startswith("!") and s in ("der", "cxer") and any(lf["t"] == -1 for lf in ls):
-                    # asn_GT2time_frac / asn_UT2time answer the error value for t = -1 (also reached by UTCTime once C06-fix-7 is in)
+                    # asn_GT2time_frac / asn_UT2time answer the error value for t = -1
                     run.known_finding("C17-time-minus-one", "TZ=%s %s" % (tz_string(tz), l))
                     continue
                 if (got.startswith("!") and tree.startswith("!")) or got == tree:
@@ -1036,6 +1034,8 @@ def time_layer(run, rng, tier, model):
             if tn == "U" and insyn == "ber":
                 mlines.append("utcanon %s %d" % (ls[0]["text"].encode().hex(), tz))
                 mexp.append((None, base, ls[0]))
+                mlines.append("utder %s %d" % (ls[0]["text"].encode().hex(), tz))
+                mexp.append(("utder", r["der"], base, ls[0]))
     rcm, mo, me_ = run_lines(model, mlines, timeout=600)
     if rcm != 0 or len(mo) != len(mlines):
         run.violation("model:driver", {"what": "model driver failed (time layer)", "rc": rcm, "stderr": me_[-1500:]}, no_input=True)
@@ -1049,6 +1049,15 @@ def time_layer(run, rng, tier, model):
                 run.violation("correspondence:CanonicalTime.frac_cmp_c", {"what": "GeneralizedTime_compare on two values of one instant differs from the extracted model of its fraction branch",
                                                                           "model": o, "c": ex[1], "model_command": ml, "command_line": ex[2], "TZ": tz_string(ex[3])}, no_input=True)
             continue
+        if ex[0] == "utder":
+            # faithfulness: UTCTime_encode_der against the extracted ut_der (canonical, or the stored text when asn_UT2time does not read it)
+            run.count("model_utder")
+            _, cder, base, lf = ex
+            if cder != _tl_hex(0x17, o):
+                run.violation("correspondence:CanonicalTime.ut_der", dict(base, what="UTCTime_encode_der differs from the extracted model (asn_UT2time, then asn_time2UT with force_gmt; "
+                                                                                      "the stored text when the reader answers the error value)",
+                                                                          model=o, model_command=ml), no_input=(cder == enc("der", "U", lf, "oracle")))
+            continue
         cder, base, lf = ex
         if cder is not None:
             run.count("model_gtcanon")
@@ -1059,7 +1068,7 @@ def time_layer(run, rng, tier, model):
             run.violation("correspondence:CanonicalTime.gt_canon", dict(base, what="GeneralizedTime_encode_der differs from the extracted model of the canonicaliser (asn_GT2time_frac, then asn_time2GT_frac with force_gmt)",
                                                                          model=o, model_command=ml), no_input=(cder == exp))
         else:
-            # spec side: the canonicaliser the UTCTime patch proposes (asn_UT2time + asn_time2UT) against the python oracle
+            # spec side: the canonicaliser of UTCTime (asn_UT2time + asn_time2UT) against the python oracle
             run.count("spec_utcanon")
             want = "FAIL" if lf["t"] == -1 else lf["canon"].encode().hex()
             if o != want:
